@@ -17,7 +17,7 @@ def is_failed_load(op, o):
     return op[0] in (31, 32) and o[0][0] == 999
 
 
-def spec_check(kind, rows, lf, ops, obs, impl):
+def spec_check(kind, rows, lf, ops, obs, impl, impl_kwargs=None):
     out = []
     n = len(ops)
     for i, (op, o) in enumerate(zip(ops, obs)):
@@ -44,7 +44,7 @@ def spec_check(kind, rows, lf, ops, obs, impl):
     idx = [i for i in range(n) if not is_failed_load(ops[i], obs[i])]
     if len(idx) != n:
         twin_ops = [ops[i] for i in idx]
-        timpl, tobs = mgmt.run_impl(kind, rows, lf, twin_ops)
+        timpl, tobs = mgmt.run_impl(kind, rows, lf, twin_ops, **(impl_kwargs or {}))
         for j, i in enumerate(idx):
             a, b = obs[i], tobs[j]
             if a[0] != b[0] or (a[3], a[4], a[5]) != (b[3], b[4], b[5]):
@@ -68,6 +68,14 @@ def spec_check(kind, rows, lf, ops, obs, impl):
         else:
             i += 1
     return out
+
+
+def spec_check_async(kind, rows, lf, ops, obs, impl):
+    from ..async_facade import AsyncFacade
+    return spec_check(kind, rows, lf, ops, obs, impl, impl_kwargs=dict(enforcer_cls=AsyncFacade))
+
+
+spec_check_async.case_extra = dict(enforcer="AsyncEnforcer")
 
 
 def make_case(rng, kind, mode):
@@ -118,6 +126,15 @@ def run(chk, n):
         mgmt.run_cases(chk, kind, cases, spec_check, label=f"fault-{kn}",
                        key_fn=lambda k, r, o: (k.name, repr(r), repr([x for x in o if x[0] < 50])))
         chk.extra.setdefault("strata", {})[f"fault_{kn}"] = len(cases)
+    # the same fault strata on the AsyncEnforcer (each call awaited): its load_policy is a separate copy of the code
+    from ..async_facade import AsyncFacade
+    for kn in ("rbac", "dom", "prio_rbac"):
+        kind = mgmt.KINDS[kn]
+        modes = ["adapter", "short_g"] + (["bad_prio", "short_p"] if kind.prio else [])
+        cases = [make_case(rng, kind, modes[i % len(modes)]) for i in range(max(24, n // 3))]
+        mgmt.run_cases(chk, kind, cases, spec_check_async, label=f"fault-async-{kn}", impl_kwargs=dict(enforcer_cls=AsyncFacade),
+                       key_fn=lambda k, r, o: ("async", k.name, repr(r), repr([x for x in o if x[0] < 50])))
+        chk.extra["strata"][f"fault_async_{kn}"] = len(cases)
     # exhaustive failure points on one fixed policy
     kind = mgmt.KINDS["rbac"]
     A = mgmt.ATOMS.a
@@ -142,12 +159,18 @@ def main():
                 "k on random policies), adapter rows poisoned with a short grouping rule (link building fails) or a "
                 "non-numeric / missing priority (ordering fails); memory differs from the adapter rows (built with auto-save "
                 "off), probes before and after each failed reload, further management calls afterwards, twin run without the "
-                "failed reloads; RBAC, domain, resource-role, priority and ACL models; distinct by (kind, rows, mutating calls)")
+                "failed reloads; RBAC, domain, resource-role, priority and ACL models; the same fault strata on the AsyncEnforcer "
+                "(every call awaited) for RBAC, domain and priority-RBAC models; distinct by (kind, rows, mutating calls)")
     chk.assumptions = ["role links were in sync with the policy before the failed call (C04's invariant; auto-build on)",
                        "failure = an exception raised by the adapter or by the model code; process crashes are out of scope"]
     chk.trusted = ["hand-written models coq/theories/{Policy,RoleGraph,Mgmt}.v tied by the differential history correspondence"]
     chk.build(oracle_name="Mgmt")
     if chk.replay_file:
+        import json
+        c = (json.load(open(chk.replay_file)).get("case") or {})
+        if c.get("enforcer") == "AsyncEnforcer":
+            from ..async_facade import AsyncFacade
+            return mgmt.replay_case(chk, spec_check_async, impl_kwargs=dict(enforcer_cls=AsyncFacade))
         return mgmt.replay_case(chk, spec_check)
     if chk.tier == "thorough":
         run(chk, 1200)
